@@ -86,6 +86,9 @@ func truthful(t *testing.T, backend sim.Backend) {
 			}
 			var real []sim.Violation
 			for _, v := range o.Viol {
+				if v.Rule == "termination" {
+					t.Fatalf("VERIF-INFRA: a call did not terminate (judged by C02 / C05, not by this property): %s\n  plan=%s\n  scenario: %s", v.Msg, plan, p)
+				}
 				if v.Known != "" && rec.Excluding(v.Known) {
 					continue
 				}
